@@ -86,6 +86,11 @@ fn dec_reply<'a, P: Deserialize<'a> + std::fmt::Debug>(seg: &'a [u8]) -> String 
 }
 
 fn oracle(target: &str, seg: &[u8]) -> String {
+    // a JSON document is UTF-8 text (RFC 8259 8.1); serde_json::from_slice alone does not look into the
+    // strings the target type ignores
+    if std::str::from_utf8(seg).is_err() {
+        return "err:json".into();
+    }
     match target {
         "call_strict" => dec_call::<Strict>(seg),
         "call_borrowed" => dec_call::<Borrowed>(seg),
